@@ -7,7 +7,7 @@ EXPLANATION = ("Contracts on the real bodies of _create_new_header (the header t
                "style and the flags: rendering goes through sorted(), so no iteration order is observable) and place_header (with an "
                "existing header no blank line is added). That each style finds the block its own writer produced (single-line before "
                "multi-line detection, Julia) and the fixpoint itself are exercised by running the real command repeatedly (bounded).")
-FUNCTIONS = ["reuse.header._create_new_header", "reuse.header.place_header", "reuse.header.create_header"]
+FUNCTIONS = ["reuse.header._create_new_header", "reuse.header.place_header"]     # create_header is verified under C09
 MODULES = ("contracts.report", "contracts.cli", "contracts.annotate", "contracts.copyright", "contracts.header")
 
 
